@@ -97,6 +97,10 @@ func FuzzFramed(f *testing.F) {
 		binary.LittleEndian.PutUint32(hdr[:], magic)
 		copy(hdr[4:], m.name)
 		f.Add(uint16(i), hdr[:])
+		// a header naming ANOTHER command than the selector (regression: the
+		// bound must follow the command the node dispatches on)
+		f.Add(uint16(i), frame("inv", 536624, nil, nil))
+		f.Add(uint16(i), frame("block", 3158064, nil, nil))
 	}
 	f.Fuzz(func(t *testing.T, sel uint16, data []byte) {
 		if len(data) > 1<<20 {
